@@ -507,6 +507,9 @@ func (w *World) cnew(m map[string]string) {
 		multi = 1
 	}
 	w.logf("newcall r=%d t=%d shape=%s method=%s md=%s credmd=%s to=%s multi=%d", r, t, shape, encStr(name), mdEnc, cmdEnc, to, multi)
+	if multi == 1 {
+		w.logf("route r=%d via=%s", r, m["via"])
+	}
 	w.logf("call who=cw%d op=new", r)
 	cc := w.channelFor(t, m["via"])
 	if cc == nil {
@@ -530,6 +533,7 @@ func (w *World) cnew(m map[string]string) {
 		}
 		if err == nil {
 			tc := grpctunnel.TunnelChannelFromContext(st.Context())
+			rs.picked = w.tunnelOfChannel(tc)
 			tmd, tok := grpctunnel.TunnelMetadataFromOutgoingContext(st.Context())
 			tm := "absent"
 			if tok {
@@ -967,7 +971,32 @@ func (w *World) Do(line string) {
 			for _, ch := range w.handler.AllReverseTunnels() {
 				ts = append(ts, fmt.Sprint(w.tunnelOfChannel(ch)))
 			}
-			w.logf("ret who=ctl op=ready via=%s res=%v all=%s", via, rc.Ready(), strings.Join(ts, ","))
+			w.logf("readyobs via=%s res=%v all=%s", via, rc.Ready(), strings.Join(ts, ","))
+		}
+	case "wait":
+		// WaitForReady in its own goroutine; the context is cancelled at teardown
+		if w.handler != nil {
+			via := m["via"]
+			var rc grpctunnel.ReverseClientConnInterface
+			if strings.HasPrefix(via, "key:") {
+				k := strings.TrimPrefix(via, "key:")
+				if k == "nil" {
+					rc = w.handler.KeyAsChannel(nil)
+				} else {
+					rc = w.handler.KeyAsChannel(k)
+				}
+			} else {
+				rc = w.handler.AsChannel()
+			}
+			w.nwait++
+			n := w.nwait
+			ctx, cancel := context.WithCancel(context.Background())
+			w.waitCancels = append(w.waitCancels, cancel)
+			w.logf("waitcall n=%d via=%s", n, via)
+			go func() {
+				err := rc.WaitForReady(ctx)
+				w.logf("waitret n=%d via=%s res=%s", n, via, encErr(err))
+			}()
 		}
 	case "probe":
 		w.probe(true)
@@ -1007,6 +1036,9 @@ func (w *World) probe(full bool) {
 // Teardown releases everything the harness itself holds so that only leaked
 // library goroutines can remain in the bubble.
 func (w *World) Teardown() {
+	for _, c := range w.waitCancels {
+		c()
+	}
 	for _, rs := range w.rpcs {
 		if rs.cancel != nil {
 			rs.cancel()
